@@ -428,8 +428,8 @@ def compact_run_unit(unit, col):
 
 
 SUBCHECKS = [
-    SubCheck("merkle", check_merkle, "root and mutation flag vs Core's ComputeMerkleRoot; model-built branches for any index; tampered leaf/index/twin index/bit/level => model verdict, never accepted for altered leaf, branch bit or root; non-trivial: >=2 leaves", merkle_case, quick=4000, thorough=60000),
-    SubCheck("blocks_filters_cmpct", check_block, "regtest blocks (0..6 txs + coinbase, witness commitment built by the model): valid accepted, one tampering refused; BIP158 filter bytes = GCS model, no false negative, parse/trailing garbage, header chain; BIP152 short ids = model, reconstruct with shuffled pool/extras/duplicates, exact missing indexes, filled block byte-identical; non-trivial: >=2 transactions", block_case, quick=700, thorough=8000),
+    SubCheck("merkle", check_merkle, "root and mutation flag vs Core's ComputeMerkleRoot; model-built branches for any index; tampered leaf/index/twin index/bit/level => model verdict, never accepted for altered leaf, branch bit or root; non-trivial: >=2 leaves", merkle_case, quick=10000, thorough=100000),
+    SubCheck("blocks_filters_cmpct", check_block, "regtest blocks (0..6 txs + coinbase, witness commitment built by the model): valid accepted, one tampering refused; BIP158 filter bytes = GCS model, no false negative, parse/trailing garbage, header chain; BIP152 short ids = model, reconstruct with shuffled pool/extras/duplicates, exact missing indexes, filled block byte-identical; non-trivial: >=2 transactions", block_case, quick=2000, thorough=16000),
     SubCheck("compact_target", check_compact, "compact bits over all exponents x sign/boundary significands and raw 32-bit values; targets of every byte length; retarget timespans around the clamps; work: vs arith_uint256 transcription", compact_case, quick=5000, thorough=100000),
     SubCheck("compact_all_exponents", lambda c: None, "every exponent 0..255 x 13 boundary significands; distinct by construction", units=compact_units, run_unit=compact_run_unit, exhaustive=True),
 ]
